@@ -276,7 +276,14 @@ func (j *JsonConverter) importDefaultValue(defaultValue *string) (out ast.Defaul
 func (j *JsonConverter) importDeprecatedDirective(reason *string) (ref int) {
 	var args []int
 	if reason != nil {
-		valueRef := j.doc.ImportStringValue([]byte(*reason), strings.Contains(*reason, "\n"))
+		// the reason is the value of the string: write it as a quoted string with escape sequences
+		// (every escape sequence of a JSON string is an escape sequence of a GraphQL string as well)
+		var quoted strings.Builder
+		enc := json.NewEncoder(&quoted)
+		enc.SetEscapeHTML(false)
+		_ = enc.Encode(*reason)
+		raw := strings.TrimSuffix(quoted.String(), "\n")
+		valueRef := j.doc.ImportStringValue([]byte(raw[1:len(raw)-1]), false)
 		value := ast.Value{
 			Kind: ast.ValueKindString,
 			Ref:  valueRef,
